@@ -10,8 +10,8 @@ META = {
             "against the property (L1); every enumerated case is then executed on the real KanidmProvider::unix_user_authorise "
             "and the real Resolver::pam_account_allowed (token fetched by the real kanidm client from a scripted HTTP endpoint, "
             "stored in and read back from the real cache database) and every real answer is judged by the TLA+ property.",
-    "note": "finite space fully replayed: 4 identifiers (quick) / 6 identifiers incl. an SPN and an unrelated string (thorough) "
-            "x 2 groups x validity x 2 entry points; beyond that seeded random lists/tokens over 6 groups; trusted: TLC, the "
+    "note": "finite space fully replayed: 4 identifiers x 2 groups (quick) / 8 identifiers incl. an SPN and an unrelated string x 3 "
+            "groups (thorough) x validity x 2 entry points; beyond that seeded random lists/tokens over 6 groups; trusted: TLC, the "
             "harness bijection identifier -> concrete name/uuid string, the scripted endpoint standing in for the server",
     "design_ref": "DESIGN.md section 6, C45",
     "technique": "TLA+ operator spec (KUnix.HostAuth) model-checked by TLC; model-generated cases replayed through the real "
@@ -23,7 +23,7 @@ def run(tier, replay):
     R = lib.Result(PID, tier, "model_checking")
     wd = lib.workdir(PID)
     lib.build("unix")
-    cfg = "KUnixHostMC4" if tier == "quick" else "KUnixHostMC"
+    cfg = "KUnixHostMC4" if tier == "quick" else "KUnixHostMC3"
     mc = lib.tlc("KUnixHostMC", cfg=cfg, pid=PID, workers=4, timeout=900)
     lib.tlc_must_pass(mc, f"{cfg}: transcription of unix_user_authorise/pam_account_allowed vs property")
     cases = unixlib.cases_from(mc)
